@@ -84,10 +84,11 @@ CLAIMED["C17"] = ("Partial proof of the reseed discipline, for every state and e
  "Generate of the HMAC, Hash and CTR generators returns the reseed-required error whenever the gate is closed on entry - before any other check - and every failing Generate leaves the generator "
  "object, its V/key bytes and the output buffer exactly as they were (frame against the entry state); a successful Generate advances the counter by exactly one and is only possible with the counter "
  "within the interval; successful HMAC/CTR Reseed sets the counter to one and a failing one changes nothing; no index, slice or block-cipher precondition panic in the generate loops "
- "(hash sizes 20/32/48/64, block sizes 8/16); DrbgPrng.Read returns exactly len(data) on success and 0 with the error otherwise, getEntropy reports short reads (ghost position of the source). "
- "Not decided: that the generated bytes equal SP 800-90A / GM/T 0105 (Hash_df, Block_Cipher_df, HMAC update are assumed frames only), the GM time-based gate (time.Since is arbitrary here), "
+ "(hash sizes 20/32/48/64, block sizes 8/16); CtrDrbg.derive (Block_Cipher_df) is memory safe for every input and hands BCC the counter block followed by L || N || input || 0x80 zero-padded to the NEXT multiple of the block length and no further "
+ "(layout and padded length for every input length; the BCC/encrypt chaining itself is not stated); DrbgPrng.Read returns exactly len(data) on success and 0 with the error otherwise, getEntropy reports short reads (ghost position of the source). "
+ "Not decided: that the generated bytes equal SP 800-90A / GM/T 0105 (Hash_df, the BCC chaining of Block_Cipher_df, the CTR and HMAC updates are assumed frames only), the GM time-based gate (time.Since is arbitrary here), "
  "termination of Read, HashDrbg.Reseed and the constructors.",
- "Trusted: hash.Hash/hmac/cipher.Block interface contracts, the add*/update/derive helpers (frames only), DRBG interface contracts used by the wrapper, io.Reader.Read.",
+ "Trusted: hash.Hash/hmac/cipher.Block interface contracts, the add*/update/bcc helpers (frames only), the object shape of a CtrDrbg (seedLength = keyLen + block size, established by its constructor, assumed on entry to Generate/Reseed), additional input below 2^31 bytes, DRBG interface contracts used by the wrapper, io.Reader.Read.",
  "DESIGN.md §4 C17")
 
 CLAIMED["C09"] = ("Partial proof, of the strict-decoding clause only: for every byte string, G1/G2/GT Unmarshal and the compressed G1/G2 decoders return without panicking and accept only if every "
